@@ -206,6 +206,7 @@ type State struct {
 	dead   bool
 	groups map[string][]*groupDelta
 	loopPre map[string]*State
+	loopRanged map[string]*Val // value ranged over by each entered loop
 	specDef map[string]*Term // non-nil while translating a spec function body: heaps become parameters
 }
 
@@ -224,7 +225,7 @@ func (s *State) clone() *State {
 		dead:   s.dead,
 		specDef: s.specDef,
 		groups: s.groups,
-		loopPre: s.loopPre,
+		loopPre: s.loopPre, loopRanged: s.loopRanged,
 	}
 	for k, v := range s.vars {
 		n.vars[k] = v
